@@ -114,6 +114,22 @@ theorem C01_w_aligned_partial (nxs nt r j : Nat) (hr : r < nxs) (hj : j < nt) (h
     subst this
     simp [Nat.div_eq_of_lt hj, Nat.mod_eq_of_lt hj]
 
+/-- **C01 (metre- and kilometre-scale fibres alike).** `wls_sparse` conditions the problem by scaling every column of the
+design matrix (`d j = 1/‖column j‖`), solves the scaled system and un-scales. Whatever non-zero factors are used, a solution
+`q` of the scaled normal equations gives, un-scaled, a global minimiser of the weighted SSR of the system that was posed; and a
+generalised inverse of the scaled normal matrix, un-scaled by `d j · d k`, is one of the posed normal matrix — so the returned
+parameters and covariance do not depend on the units of `x` (`Theory.normalEq_scaleCols`, `Theory.ginverse_scaleCols`). -/
+theorem C01_column_scaling {K : Type} [Field K] [LinearOrder K] [IsStrictOrderedRing K] {m n : Type} [Fintype m] [Fintype n]
+    [DecidableEq n] (X : Matrix m n K) (y w : m → K) (d q : n → K) (hd : ∀ j, d j ≠ 0) (hw : ∀ i, 0 ≤ w i)
+    (h : NormalEq (scaleCols X d) y w q) :
+    (∀ p, wssr X y w (fun j => d j * q j) ≤ wssr X y w p) ∧
+    (∀ Gs : Matrix n n K, normalMat (scaleCols X d) w * Gs * normalMat (scaleCols X d) w = normalMat (scaleCols X d) w →
+      normalMat X w * (Matrix.of fun j k => d j * Gs j k * d k) * normalMat X w = normalMat X w) := by
+  refine ⟨scaleCols_min X y w d q hd hw h, ?_⟩
+  intro Gs hG
+  rw [normalMat_scaleCols] at hG
+  exact ginverse_scaleCols (normalMat X w) Gs d hd hG
+
 /-! ### Non-vacuity: a 4-observation straight-line fit solved and checked by the model -/
 def exampleSys : Sys := ⟨2, #[⟨[(0, 1), (1, 0)], 1, 1⟩, ⟨[(0, 1), (1, 1)], 3, 2⟩, ⟨[(0, 1), (1, 2)], 2, 1⟩, ⟨[(0, 1), (1, 3)], 5, 1/2⟩]⟩
 example : (exampleSys.solve).isSome = true := by decide +kernel
